@@ -223,6 +223,16 @@ def run(res, tier, seed):
     get([(V['ALLOW_ALL'], 'false'), (V['ALLOW_ORIGINS'], b'o1,\xff')], 'GET', [('Origin', 'o1')], 'non-unicode origins setting')
     get([('RWS_CONFIG_CORS_ALLOW_AL', 'false'), ('rws_config_cors_allow_all', 'false'), (V['ALLOW_ORIGINS'], 'o1')], 'GET', [('Origin', 'zz')], 'near-miss variable name')
 
+    # 3b. an Origin that is NOT configured but is related to the request's OWN headers (the authority of its Host, its Referer, a
+    #     forwarded host): with the switch off nothing about the request itself may earn it a grant
+    for host in ['localhost', 'localhost:7777', 'attacker.example', 'a.example:8443', 'LOCALHOST:7777', '127.0.0.1:7878', '[::1]:7878']:
+        for ov in [f'http://{host}', f'https://{host}', host, f'//{host}', f'http://{host.lower()}', f'HTTP://{host.upper()}', f'http://{host}/', f'null://{host}']:
+            for method in ('GET', 'OPTIONS', 'POST'):
+                for hs in ([('Host', host), ('Origin', ov)], [('Origin', ov), ('Host', host)], [('host', host), ('origin', ov)],
+                           [('Host', 'other.example'), ('Referer', ov + '/page'), ('Origin', ov)], [('X-Forwarded-Host', host), ('Origin', ov)]):
+                    for conf in ('https://foo.example', '', 'https://foo.example,https://bar.example'):
+                        get([(V['ALLOW_ALL'], 'false'), (V['ALLOW_ORIGINS'], conf), (V['ALLOW_CREDENTIALS'], 'true')], method,
+                            hs + (PREFLIGHT if method == 'OPTIONS' else []), 'origin related to the request own headers', 'corsget' if method != 'POST' else 'corsdef')
     # 4. Unicode lower-casing of configured / requested header lists (differential must agree; the
     #    oracle checks the value too: all characters are in the trusted pool)
     A, S = '\u0391', '\u03a3'     # GREEK CAPITAL ALPHA / SIGMA
